@@ -428,12 +428,13 @@ PROPERTIES["C06"] = {
        MH("c06_deps_all", inputs="two dependencies per kind (eight kinds): name, version 1 symbolic character, flags any u32", bounds="dependency setters vs accessors (in order, among the builder's own entries)", timeout=900),
        MH("c06_with_file_inherit", inputs="stubbed source file: content byte, st_mode (any regular-file mode), mtime symbolic", bounds="with_file with the mode inherited from the source file", timeout=600),
        MH("c06_with_file_explicit", inputs="stubbed source file plus an explicit mode (any permission bits)", bounds="with_file with an explicit mode", timeout=600),
+       MH("c06_files_misc", inputs="a symbolic link (target 2 symbolic letters), a file with capabilities, a './'-style destination, a file directly under the root", bounds="add_data vs get_file_entries: paths, link target, capabilities", timeout=600),
        MH("c06_verify_script", inputs="verify_script(Scriptlet): text 2 symbolic characters, flags any u32, one-word interpreter", bounds="the %verifyscript tags of the built header (no accessor exists)", timeout=600),
        MH("c06_files_1", inputs="one file: permission bits, flags, mtime, content byte, source date symbolic", bounds="add_data vs get_file_entries", timeout=900),
        MH("c06_files_2", inputs="two files: permission bits, flags, mtimes, content bytes, source date symbolic", bounds="add_data vs get_file_entries", timeout=1800)]
     + [MH("c06_changelog_%d" % n, inputs="%d changelog entries: author, text 1 symbolic character, time any u32" % n, bounds="add_changelog_entry vs get_changelog_entries (order kept)", timeout=600) for n in (0, 1, 2, 3)],
     "bounds": "strings of 1 symbolic printable ASCII character (scriptlet text 2); every u32 for epoch and flag words; up to two files with one content byte; no compression; unsigned",
-    "outside": "longer, empty, multi-line and multi-byte strings; capabilities and link targets of files; every compression type; signing; "
+    "outside": "longer, empty, multi-line and multi-byte strings; every compression type; signing; "
                "the write -> parse leg (C01/C05 decide that parsing returns what was written)",
     "assumptions": A_MIR + _A_BUILD,
     "technique": None,
